@@ -22,6 +22,7 @@ type Def struct {
 	Pm       float64      // prime meridian, degrees east of Greenwich
 	Pts      [][2]float64 // geographic positions (lon, lat in degrees, relative to Greenwich) inside the usable region
 	Option   string       // which option departs from the default ("base", "ellps=...", ...)
+	C09Only  bool         // compared with proj4js only, not part of the round trips of C08
 }
 
 // Ellipsoid names of proj4js 2.3.12 (also checked against the Go table by C09).
@@ -45,6 +46,11 @@ func options(full bool) []option {
 		{"towgs84-3", "+ellps=intl +towgs84=-87,-98,-121", true, 1, 0},
 		{"units=ft", "+datum=WGS84 +units=ft", true, 0.3048, 0},
 		{"units=us-ft", "+ellps=GRS80 +towgs84=0,0,0 +units=us-ft", true, 1200.0 / 3937.0, 0},
+		// a sphere of the WGS84 radius on the WGS84 datum (the pair with the GRS80
+		// option before it has equal a, different flattening and no shift). Compared
+		// with proj4js only (C09): the ellipsoid change loses up to 21 km of
+		// ellipsoidal height, which no two-dimensional round trip survives
+		{"sphere+datum=WGS84", "+a=6378137 +b=6378137 +datum=WGS84", true, 1, 0},
 		{"sphere", "+a=6370997 +b=6370997", false, 1, 0},
 		// pairs of options that interact: a prime meridian together with a datum
 		// shift, and a 7-term shift whose translations are zero
@@ -52,6 +58,9 @@ func options(full bool) []option {
 		{"towgs84-7-rotation-only", "+ellps=intl +towgs84=0,0,0,0.35,-0.12,1.1,2.5", true, 1, 0},
 		// ... and one whose rotations are zero but whose scale is not
 		{"towgs84-7-zero-rotations", "+ellps=intl +towgs84=-87,-98,-121,0,0,0,5.2", true, 1, 0},
+		// ... a translation-only shift written with seven values, and feet on a shifted datum
+		{"towgs84-7-zero-tail", "+ellps=clrk66 +towgs84=-8,160,176,0,0,0,0", true, 1, 0},
+		{"units=ft+towgs84-3", "+ellps=intl +towgs84=-87,-98,-121 +units=ft", true, 0.3048, 0},
 		// the one built-in datum without shift parameters on another ellipsoid
 		// (a pure ellipsoid change)
 		{"datum=NAD27", "+datum=NAD27", true, 1, 0},
@@ -218,6 +227,17 @@ func Lattice(full bool) []Def {
 		if pa.proj == "utm" && !full && (pi%20 != 0) {
 			opts = coreOpts[:1]
 		}
+		if pa.proj == "tmerc" || pa.proj == "utm" {
+			// (the spherical transverse Mercator of proj4js has its own known classes;
+			// one spherical option is enough there)
+			var ko []option
+			for _, o := range opts {
+				if o.label != "sphere+datum=WGS84" {
+					ko = append(ko, o)
+				}
+			}
+			opts = ko
+		}
 		if pa.proj == "krovak" {
 			// Krovak is defined on the Bessel ellipsoid; keep ellipsoid-free options only
 			var ko []option
@@ -233,6 +253,7 @@ func Lattice(full bool) []Def {
 			d := Def{
 				Name: pa.proj + "|" + pa.text + "|" + o.label, Proj: pa.proj, Params: pa.text, Ellps: o.text,
 				Proj4: pa.text + " " + o.text, Geo: geo, HasDatum: o.hasDatum, ToMeter: o.toMeter, Pm: o.pm, Option: o.label,
+				C09Only: o.label == "sphere+datum=WGS84",
 			}
 			// positions are given relative to Greenwich; the central meridian of a
 			// definition with +pm is relative to that prime meridian
